@@ -1616,4 +1616,11 @@ theorem dumpRaw_fixed (size : Nat) (data : List Byte) :
     simp [h, h8]
     omega
 
+/-- the `list_add_tail` loop of deep_copy_filter appends in order -/
+theorem copyArgs_tail_aux (l acc : List LSpec) :
+    l.foldl (fun acc a => acc ++ [a]) acc = acc ++ l := by
+  induction l generalizing acc with
+  | nil => rw [List.foldl_nil, List.append_nil]
+  | cons a l ih => rw [List.foldl_cons, ih, List.append_assoc]; rfl
+
 end Uft.Argbuf
